@@ -7,7 +7,8 @@
      consts                                 -> C <ctxC> <hex of no_newline_msg>
      patch <oldName> <newName> <out> <old> <new> -> true|false: the Coq-side reader and patch applier
                                                (patch_bytes / unpatch_bytes of the END-TO-END theorem) on the
-                                               given bytes turn lines old into lines new and back
+                                               given bytes turn lines old into lines new and back, and
+                                               (patch_text / unpatch_text) the text old into the text new and back
      linesgo <text>                         -> L <n> <hex>* | PANIC | FUEL   (the statement-level lines) *)
 let show_res f = function Ok a -> f a | Panic -> "PANIC" | OutOfFuel -> "FUEL"
 let () = serve (function
@@ -26,7 +27,10 @@ let () = serve (function
   | ["patch"; on; nn; out; o; n] ->
       let on = bytes_of_hex on and nn = bytes_of_hex nn and out = bytes_of_hex out in
       let lo = lines (bytes_of_hex o) and ln = lines (bytes_of_hex n) in
-      string_of_bool (patch_bytes on nn out lo = Some ln && unpatch_bytes on nn out ln = Some lo)
+      let o = bytes_of_hex o and n = bytes_of_hex n in
+      string_of_bool (patch_bytes on nn out lo = Some ln && unpatch_bytes on nn out ln = Some lo
+                      (* and at the level of TEXTS (C08_text_patch): unlines of the patched lines *)
+                      && patch_text on nn out o = Some n && unpatch_text on nn out n = Some o)
   | ["linesgo"; t] ->
       show_res (fun ls -> String.concat " " ("L" :: string_of_int (List.length ls) :: List.map hex_of_bytes ls))
         (lines_go (bytes_of_hex t))
